@@ -11,7 +11,8 @@ point from `chemical.Psat` and FRESH `thermo.Gamma/Phi/PCF` instances and handed
 Oracle (real objects only): residual of the defining equation with z/Σz, returned fractions normalised
 and equal to the normalised Raoult vector, single component = Chemical.Tsat/Psat, T→P→T and P→T→P,
 T_bubble ≤ T_dew, P_dew ≤ P_bubble, invariance under z ↦ k·z and under permutation of the chemical list,
-instance cache returns an instance built for exactly the requested (ordered) chemicals and package; the caller's
+instance cache returns an instance built for exactly the requested (ordered) chemicals and package; every result object
+kept from an earlier call of the case still reads what it returned after each later call (`result-overwritten-by-later-call`); the caller's
 composition array is not modified; a call's result depends on the CURRENT content of the array it is given (histories
 that reuse one ndarray buffer, updated in place between calls on the same cached object — `buf` op).
 
@@ -393,6 +394,7 @@ class Run:
         self.seen = {'B': [], 'D': []}     # instances in order of first appearance (id-classes)
         self.multi = False
         self.inject = False      # True while a `fallback` op makes the primary (open) solver fail
+        self.kept = []           # (returned fractions array itself, its content when returned, T, P, result object, label)
 
     def emit(self, line, ans):
         self.model_in.append(line); self.outs.append(ans)
@@ -421,6 +423,20 @@ class Run:
                       f'{cls.__name__}({ids}, {PKG_NAMES[pkg]}) returned an instance built for {obj.IDs} / '
                       f'{type(obj.gamma).__name__}')
         return obj
+
+    def recheck_kept(self, after):
+        for arr, was, T, P, res, what in self.kept:
+            now = np.asarray(arr, float)
+            same = now.shape == was.shape and np.array_equal(now, was) and float(res.T) == T and float(res.P) == P
+            if not same:
+                self.fail('result-overwritten-by-later-call',
+                          f'the result kept from {what} (fractions {was.tolist()}, T={T!r}, P={P!r}) reads {now.tolist()}, '
+                          f'T={float(res.T)!r}, P={float(res.P)!r} after the later call {after}: the returned array is shared '
+                          f'with the cached solver object')
+                self.kept = [k for k in self.kept if k[0] is not arr]
+                self.tags.add('kept-result-changed')
+                return
+        if self.kept: self.tags.add('kept-results-rechecked')
 
     # -- one solve ------------------------------------------------------------
     def solve(self, method, spec, z, ids=None, label='', pkg=None):
@@ -458,8 +474,15 @@ class Run:
         if not np.array_equal(z_before, z):
             self.fail(f'{method}:mutates-input', f'{method}{label} {ids}: the call changed the caller\'s composition array '
                                                  f'from {z_before.tolist()} to {z.tolist()}')
-        frac = np.array(res.y if which == 'B' else res.x, float)
+        # results kept by the caller must stay what was returned: re-inspect every earlier result object of this case
+        # (instances are cached per chemical list and package, so later calls run on the same solver object)
+        self.recheck_kept(f'{method}{label} z={z.tolist()} spec={spec!r}')
+        returned = res.y if which == 'B' else res.x
+        frac = np.array(returned, float)
         T, P = float(res.T), float(res.P)
+        if isinstance(returned, np.ndarray):
+            self.kept.append((returned, frac.copy(), T, P, res, f'{method}{label} {ids} z={z.tolist()} spec={spec!r}'))
+            if len(self.kept) > 12: self.kept.pop(0)
         val = P if method.endswith('P') else T
         zs = z.sum(); zn = z / zs
         single = N == 1
@@ -810,6 +833,7 @@ def run_impl(case: Case) -> ImplResult:
             r.tags.add('perm')
         else:
             raise ValueError('unknown op ' + line)
+    r.recheck_kept('the end of the case')
     return ImplResult(model_in=r.model_in, outs=r.outs, failures=r.failures, tags=sorted(r.tags),
                       nontrivial=(tuple(case.ops) if r.multi else None))
 
